@@ -155,4 +155,16 @@ CLAIMED = {
             "contents per option, and the outcome of each of the 221 184 verify_jws attempts.",
             "Ed25519 only; crypto primitive trusted.",
             "DESIGN.md §3 C08"),
+    "C02": ("TLA+ spec CredentialValidation (two-phase decision table: signature phase, unit phase, cross rows) evaluated by TLC; "
+            "every row issued as a real signed JWT and validated against real issuer documents",
+            "model_checking",
+            "TLC enumerates 66 588 rows (full signature-phase product, full unit-phase product, cross-phase pairs), computing "
+            "acceptance and the error kinds of the false conditions and checking what acceptance implies; the harness issues "
+            "each row with real Ed25519 keys (hand-assembled JWS where the signer would refuse), documents with two methods in "
+            "different scopes, a foreign document listing the same key, a revocation-bitmap service and explicit bound "
+            "timestamps, and runs JwtCredentialValidator::validate and verify_signature: accept <=> every condition, errors "
+            "name false conditions (exactly all unit-phase ones under AllErrors), returned credential and custom claims equal "
+            "the signed ones.",
+            "Bounds explicit; RevocationBitmap2022 status only; fail-fast order not compared.",
+            "DESIGN.md §3 C02"),
 }
